@@ -416,7 +416,37 @@ func (w *world) rbres(res string) {
 	w.t.Op(op, w.nextObs(c2, ok, "done"))
 }
 
-func (w *world) quit() {
+// bcastDuringStop: Broadcast(tx) is waiting for the handler (which is inside the
+// network call) when Stop closes quit: Broadcast must return the stop error at
+// once, without waiting for the network.
+func (w *world) bcastDuringStop(i int, res string) {
+	w.t.Hit("op.bcastq")
+	tx := w.txs[i]
+	op := fmt.Sprintf("bcastq %d %s", i, res)
+	errc := make(chan error, 1)
+	go func() { errc <- w.b.Broadcast(tx) }()
+	var c *cbCall
+	select {
+	case c = <-w.calls:
+	case <-time.After(watchdog):
+	}
+	if c == nil || c.tx != tx {
+		w.t.Op(op, "NOCALL")
+		return
+	}
+	w.startStop()
+	select {
+	case err := <-errc:
+		w.t.Op(op, nameOf(err))
+	case <-time.After(watchdog):
+		leaked++
+		w.t.Op(op, "HANG")
+	}
+	c.resp <- errOf(res, w.mapper)
+	w.awaitCancel()
+}
+
+func (w *world) startStop() {
 	w.t.Hit("op.stop")
 	if w.inflight != nil {
 		w.t.Hit("branch.stop.during-rebroadcast")
@@ -424,6 +454,14 @@ func (w *world) quit() {
 	w.stopDone = make(chan struct{})
 	go func() { w.b.Stop(); close(w.stopDone) }()
 	w.quitSent = true
+}
+
+func (w *world) quit() {
+	w.startStop()
+	w.awaitCancel()
+}
+
+func (w *world) awaitCancel() {
 	select {
 	case <-w.cancelled:
 		w.t.Op("quit", "cancelled")
@@ -518,7 +556,11 @@ func seqCase(t *tr.W, r *rand.Rand) {
 		case 2:
 			w.block()
 		case 3:
-			w.quit()
+			if r.Intn(3) == 0 {
+				w.bcastDuringStop(r.Intn(n), resNames[pick(r, bcastW)])
+			} else {
+				w.quit()
+			}
 		}
 	}
 	if !w.quitSent {
